@@ -274,6 +274,12 @@ class Interp:
 
     def ev_Name(self, st, e):
         if e.id not in st.env:
+            if e.id in st.ghost.get('loopnames', ()):
+                # assigned later in the body of an enclosing loop: in an arbitrary iteration it holds the (arbitrary) value of an
+                # earlier iteration -- modelled as a fresh scalar; the first-iteration UnboundLocalError is NOT excluded here
+                st.env[e.id] = SReal(fresh(R, e.id))
+                st.events.append(dict(kind='maybe-unbound', name=e.id, line=e.lineno))
+                return [(st, st.env[e.id])]
             raise Unsupported(f'unbound name {e.id} (line {e.lineno})')
         return [(st, st.env[e.id])]
 
@@ -812,6 +818,7 @@ class Interp:
             it = fresh(I, n.target.id)
             g.pc += [N > 0, it >= 0, it < N]
             self.havoc(g, names, arrs, n)
+            g.ghost['loopnames'] = set(g.ghost.get('loopnames', ())) | set(names)
             for nm in lists:
                 L = g.lists[g.env[nm].loc]
                 L['n0'] = L['n']
